@@ -88,8 +88,13 @@ def wrap_non_picklable_objects(obj, keep_wrapper=True):
     # If obj is a  class, create a CloudpickledClassWrapper which instantiates
     # the object internally and wrap it directly in a CloudpickledObjectWrapper
     if inspect.isclass(obj):
+        # Make sure the instances conserve the callable property
+        if any("__call__" in vars(klass) for klass in obj.__mro__):
+            base_wrapper = CallableObjectWrapper
+        else:
+            base_wrapper = CloudpickledObjectWrapper
 
-        class CloudpickledClassWrapper(CloudpickledObjectWrapper):
+        class CloudpickledClassWrapper(base_wrapper):
             def __init__(self, *args, **kwargs):
                 self._obj = obj(*args, **kwargs)
                 self._keep_wrapper = keep_wrapper
